@@ -177,6 +177,10 @@ class TreeGen:
             self.keys[reg] = set(x for x in ks if x % m != rem)
         elif c < 0.94:
             self.emit("iter", reg)
+            s2 = (reg + 1) % 4    # deterministic partner: equality in every representation pairing, both ways round
+            if self.size[reg] <= 400 and self.size[s2] <= 400:
+                self.emit("mixeq", reg, s2)
+                self.emit("mixeq", reg, reg)
         elif c < 0.98:
             self.combine(reg)
         else:
@@ -193,6 +197,7 @@ class TreeGen:
         c = r.randrange(5)
         if c == 0:
             self.emit("mixeq", reg, s)
+            self.emit("mixeq", reg, reg)   # equal values, different stored-zero patterns (no extra random draw)
         elif c == 1:
             self.emit("mixswap", reg, s)
         elif c == 2:
